@@ -21,6 +21,11 @@ func init() {
 		c01FanoutLock(c)
 		c01SSRC(c)
 		c01Demux(c)
+		// over UDP the delivered stream is what the reorderer releases: "at most once, in order"
+		// rests on the same structural conditions as C14 (shared rules, reported under C01)
+		c14RingIndex(c, "C01/REORDER-RING-INDEX")
+		c14ConsecutiveCounter(c, "C01/REORDER-CONSECUTIVE-COUNTER")
+		perPacketRule(c, "C01/REORDER-PER-PACKET", []string{"pkg/rtpreceiver", "pkg/rtpreorderer", "pkg/rtplossdetector"}, 1)
 	}
 }
 
